@@ -92,10 +92,8 @@ func compileRules() (*ir.File, string, error) {
 		Uses:  map[*ast.Ident]types.Object{},
 		Defs:  map[*ast.Ident]types.Object{},
 	}
-	harness.U.Lock()
 	conf := types.Config{Importer: harness.U}
 	pkg, err := conf.Check("gorules", fset, []*ast.File{f}, info)
-	harness.U.Unlock()
 	if err != nil {
 		return nil, "", err
 	}
